@@ -295,17 +295,15 @@ def evaluate_cases(mod, cases, timeout):
     impl_replies = [run_impl_case(mod, c, timeout) for c in cases]
     flat = [l for c in cases for l in ([ '(sys reset)' ] + c['lines'])]
     model_flat = run_driver(flat)
-    k = 0
     stats = dict(lines=0, agree=0, bad_op=0, errors={}, tags={})
     compare = getattr(mod, 'compare', None)
     start = 0
     for c, irs in zip(cases, impl_replies):
-        k = start + 1  # the reset line
-        start += 1 + len(c['lines'])   # (a finding ends the case early: never carry k over from the previous case)
+        base = start + 1                 # model reply of this case's first line (after its reset line)
+        start += 1 + len(c['lines'])     # per-case offsets: a finding that ends a case early never shifts later cases
         stats['tags'][c.get('tag', '')] = stats['tags'].get(c.get('tag', ''), 0) + 1
         for i, (line, ir) in enumerate(zip(c['lines'], irs)):
-            mr = model_flat[k] if model_flat is not None else 'no-driver'
-            k += 1
+            mr = model_flat[base + i] if model_flat is not None else 'no-driver'
             stats['lines'] += 1
             if ir.startswith('err') or ir == 'timeout':
                 stats['errors'][ir] = stats['errors'].get(ir, 0) + 1
@@ -324,7 +322,6 @@ def evaluate_cases(mod, cases, timeout):
                 findings.append(Finding(kind, c, 'line %d: %s' % (i, d), impl=irs, model=None))
                 findings[-1].line_index = i
                 findings[-1].model = mr
-                k += len(c['lines']) - i - 1   # skip the model replies of this case's remaining lines
                 break
     return findings, stats, impl_replies
 
